@@ -21,8 +21,8 @@ from mc.common import Collector, make_1d, make_2d
 ID = "C15"
 LEVEL = "model_checking"
 RULE = (
-    "BFS over all operation sequences up to the stated depth from 8 initial spectra ({1D,2D} x layouts {(), (time:3), "
-    "(time:2,latitude:2), flattened}; distinct value per element, one NaN bin, depths 10/inf/20) over the operation alphabet "
+    "BFS over all operation sequences up to the stated depth from 10 initial spectra ({1D,2D} x layouts {(), (time:3), "
+    "(time:2,latitude:2), flattened, spectral dimensions not trailing}; distinct value per element, one NaN bin, depths 10/inf/20) over the operation alphabet "
     "(+, -, neg, multiply x3, bandpass x2, sel, isel x4, __getitem__, mean/sum/std x dims x skipna, flatten, copy x4, where, "
     "drop_invalid, fillna, interpolate(time), interpolate_frequency x2, as_frequency_spectrum, as_frequency_direction_spectrum, "
     "concatenate_spectra(N in 1..3(6), dim in time/latitude/longitude/None), netCDF save+load); states "
@@ -36,7 +36,7 @@ ASSUMPTIONS = [
     "operations that raise on a state reached by other operations are counted, not reported (they may legitimately be rejected); operations in MUST_SUCCEED raising on an initial state are reported",
 ]
 REQUIRED_CATEGORIES = ["op_returned", "op_rejected", "deepcopy_checked", "concat_roundtrip_members", "flatten_roundtrip_members",
-                       "netcdf_roundtrip", "binary_op", "nan_state", "inf_depth_state", "ancestor_probe"]
+                       "netcdf_roundtrip", "binary_op", "nan_state", "inf_depth_state", "ancestor_probe", "twin_probe", "transposed_layout_state"]
 
 F1 = np.array([0.05, 0.1, 0.2, 0.3, 0.5])
 D1 = np.array([0.0, 45.0, 90.0, 135.0, 180.0, 225.0, 270.0, 315.0])
@@ -47,6 +47,8 @@ SCRATCH = "/dev/shm/osu-verif-c15-%d" % os.getpid()
 # initial states
 # --------------------------------------------------------------------------------------------
 def initial(kind, layout):
+    if layout == "time_T":
+        return initial_transposed(kind)
     lead = {"scalar": (), "time": (3,), "time_lat": (2, 2), "flat": (2, 2)}[layout]
     n = int(np.prod(lead)) if lead else 1
     nf = len(F1)
@@ -68,6 +70,29 @@ def initial(kind, layout):
     E[(0,) * len(lead) + (2, 3)] = np.nan
     depth = np.array([np.inf, 10.0, 20.0, 35.0][:n]).reshape(lead) if lead else np.inf
     return make_2d(F1, D1, E, depth=depth, flat=(layout == "flat"))
+
+
+def initial_transposed(kind):
+    """spectral dimensions NOT trailing: 1D ('frequency','time'), 2D ('time','direction','frequency')"""
+    from ocean_science_utilities.wavespectra.spectrum import create_1d_spectrum, create_2d_spectrum
+    from mc.common import times
+
+    nt, nf, nd = 3, len(F1), len(D1)
+    t = times(nt)
+    lat = 10.0 + np.arange(nt) * 0.5
+    lon = -120.0 + np.arange(nt) * 0.25
+    depth = np.array([10.0, np.inf, 20.0])
+    if kind == "1d":
+        E = (np.arange(nt * nf, dtype=float) + 1.0).reshape(nf, nt)
+        E[2, 0] = np.nan
+        a1 = np.where(np.isnan(E), 0.1, 0.5 * np.cos(E * 0.3))
+        b1 = np.where(np.isnan(E), 0.2, 0.5 * np.sin(E * 0.3))
+        a2 = np.where(np.isnan(E), 0.05, 0.3 * np.cos(E * 0.7))
+        b2 = np.where(np.isnan(E), -0.05, 0.3 * np.sin(E * 0.7))
+        return create_1d_spectrum(F1, E, t, lat, lon, a1, b1, a2, b2, depth=depth, dims=("frequency", "time"))
+    E = (np.arange(nt * nf * nd, dtype=float) + 1.0).reshape(nt, nd, nf) / 10.0
+    E[0, 3, 2] = np.nan
+    return create_2d_spectrum(F1, D1, E, t, lat, lon, dims=("time", "direction", "frequency"), depth=depth)
 
 
 # --------------------------------------------------------------------------------------------
@@ -200,6 +225,9 @@ def op_list(tier):
             if tier == "thorough" and dim in ("latitude", "longitude") and n in (4, 5):
                 continue
             op(f"concat_{dim}_{n}", (dim, n), "concat", must="scalar" if dim else "all")
+            if n >= 2 and dim in ("time", "latitude"):
+                # the same inputs in an order that is not sorted along the new coordinate
+                op(f"concat_{dim}_{n}_perm", (dim, n, "perm"), "concat", must="scalar")
     op("netcdf", None, "netcdf", must="all")
     return ops
 
@@ -208,6 +236,9 @@ def must_succeed(opd, info):
     m = opd["must"]
     if m is None:
         return False
+    if info["layout"] == "time_T":
+        # spectral dimensions not trailing: only operations that do not depend on the dims order are demanded
+        return opd["name"] in ("netcdf", "copy_deep", "copy_default", "deepcopy", "copy_shallow", "copy_copy", "neg", "add", "sub")
     if m == "all":
         return True
     if m == "1d":
@@ -330,8 +361,14 @@ def apply(c, s, opd, info, viol, depth_state):
 def do_concat(c, s, opd, viol):
     from ocean_science_utilities.wavespectra.operations import concatenate_spectra
 
-    dim, n = opd["fn"]
-    parts = [variant(s, k) for k in range(n)]
+    dim, n = opd["fn"][:2]
+    order = opd["fn"][2] if len(opd["fn"]) > 2 else "asc"
+    ks = list(range(n))
+    if order == "perm":
+        # a fixed order that is neither ascending nor descending along any coordinate (for n >= 3);
+        # for n == 2 it is descending
+        ks = [1, 0, 2, 5, 4, 3][:n] if n != 4 else [2, 0, 3, 1]
+    parts = [variant(s, k) for k in ks]
     befores = [canon(p) for p in parts]
     res = concatenate_spectra(parts, dim=dim)
     for k, p in enumerate(parts):
@@ -458,6 +495,33 @@ def build(info, hist, ops_by_name, c):
     return build_chain(info, hist, ops_by_name)[-1]
 
 
+def twin_probe(c, s, opd, info, viol):
+    """Calling an operation twice on the same operand must give two independent new objects (a conversion
+    memoised on the operand would hand out the same object twice): distinct identity, distinct dataset, and
+    the library's in-place mutators applied to the first result reach neither the second nor the operand."""
+    if opd["kind"] not in ("unary", "flatten", "deepcopy"):
+        return
+    try:
+        r1 = opd["fn"](s)
+        r2 = opd["fn"](s)
+    except Exception:
+        return
+    c.cat("twin_probe")
+    if r1 is r2 or getattr(r1, "dataset", 1) is getattr(r2, "dataset", 2):
+        viol("same object returned twice", f"two calls of {opd['name']} on the same operand returned the same object")
+        return
+    b2, bs = canon(r2), canon(s)
+    try:
+        r1.fillna(7.5)
+        r1.multiply(np.full(r1.shape(), 0.5), inplace=True)
+    except Exception:
+        pass
+    if canon(r2) != b2:
+        viol("results of two calls share state", f"an in-place operation on one result of {opd['name']} changed the result of a second call")
+    if canon(s) != bs:
+        viol("operand mutated", f"an in-place operation on the result of {opd['name']} changed the operand")
+
+
 def ancestor_probe(c, info, hist, opd, ops_by_name, viol):
     """The library's in-place mutators applied to a *derived* object must not reach the objects it was derived
     from (results of flatten / slicing / interpolation may be views of their operand): rebuild the whole chain,
@@ -520,10 +584,16 @@ def run_unit(unit):
                 res = apply(c, s, opd, info, lambda check, what: vl.append((check, what)), level)
                 if opd["kind"] == "mutating":
                     ancestor_probe(c, info, hist, opd, ops_by_name, lambda check, what: vl.append((check, what)))
+                elif level == 0 or opd["name"] in ("as_1d", "as_2d_mem", "flatten", "interp_freq_linear", "bandpass_inner"):
+                    if s is None or canon(s) != s_canon:
+                        s = build(info, hist, ops_by_name, c)
+                    twin_probe(c, s, opd, info, lambda check, what: vl.append((check, what)))
                 transitions += 1
                 c.evaluations += 1
                 if np.isnan(s.variance_density.values).any():
                     c.cat("nan_state")
+                if info["layout"] == "time_T":
+                    c.cat("transposed_layout_state")
                 try:
                     if np.isinf(np.asarray(s.dataset["depth"].values, dtype=float)).any():
                         c.cat("inf_depth_state")
@@ -566,10 +636,11 @@ def units(tier):
     nshards = 8
     us = []
     for kind in ("1d", "2d"):
-        for layout in ("scalar", "time", "time_lat", "flat"):
-            for sh in range(nshards):
+        for layout in ("scalar", "time", "time_lat", "flat", "time_T"):
+            for sh in range(nshards if layout != "time_T" else max(2, nshards // 2)):
                 us.append({"name": f"bfs:{kind}:{layout}:shard{sh}", "kind": kind, "layout": layout, "depth": depth,
-                           "shard": sh, "nshards": nshards, "cost": 3 if kind == "2d" else 2})
+                           "shard": sh, "nshards": nshards if layout != "time_T" else max(2, nshards // 2),
+                           "cost": 3 if kind == "2d" else 2})
     return us
 
 
